@@ -23,12 +23,12 @@ LEVEL_NOTE = ('Flux values from a fixed + seed-derived alphabet; the first file 
 RULE = ("cases: (n_ap, distance, n_wav, spectral order) configurations x stored unit A; executions: for every B: read A as B, write, read back as A, and for every C compare "
         "read(B-file, C) with read(A-file, C); non-trivial = distinct (configuration, A, B) with A != B")
 ASSUMPTIONS = ["positive finite fluxes and frequencies", "distance taken from the file header"]
-REQUIRED_CLASSES = ['distance-keyword-absent', 'pair-different-family', 'chain-ABA', 'chain-ABC', 'unsupported-refused', 'luminosity-with-distance!=1kpc', 'nu-decreasing-in-file', 'multi-aperture']
+REQUIRED_CLASSES = ['error-column-in-other-unit', 'float32-file', 'distance-keyword-absent', 'pair-different-family', 'chain-ABA', 'chain-ABC', 'unsupported-refused', 'luminosity-with-distance!=1kpc', 'nu-decreasing-in-file', 'multi-aperture']
 TIMEOUT = {'quick': 300, 'thorough': 1800}
 
 UNITS = ['mJy', 'Jy', 'erg / (cm2 s)', 'erg / s', 'W / m2']
 FITS_UNIT = {'mJy': 'mJy', 'Jy': 'Jy', 'erg / (cm2 s)': 'erg s-1 cm-2', 'erg / s': 'erg s-1', 'W / m2': 'W m-2'}
-AXES = {'n_ap': [2, 0, 1, 5], 'n_wav': [3, 2, 10], 'order': ['nu-inc', 'nu-dec']}
+AXES = {'n_ap': [2, 0, 1, 5], 'n_wav': [3, 2, 10], 'order': ['nu-inc', 'nu-dec'], 'err_unit': ['same', 'other'], 'f32': [False, True]}
 DISTS = ['1kpc', '140pc', 'absent', '3.3e22cm', '1kpc']      # visited in this order inside every case (same grid, same units, other distance)
 DIST_CM = {'1kpc': pkgwriter.KPC_CM, '140pc': 140 * pkgwriter.KPC_CM / 1000.0, '3.3e22cm': 3.3e22, 'absent': pkgwriter.KPC_CM}
 
@@ -85,14 +85,28 @@ def _one_distance(ctx, case, rec, d):
     ap = None if n_ap == 0 else 100.0 * 10.0 ** np.arange(n_ap)
     if n_ap >= 2:
         rec.cls('multi-aperture')
-    pkgwriter.write_sed_file(d, 'm', wav, base, err, apertures_au=ap, unit=FITS_UNIT[A], distance_cm=None if case['dist'] == 'absent' else dist, filename='a.fits')
+    # the error column may carry another unit of the same family than the flux column (the format stores them separately)
+    SIB = {'mJy': ('Jy', 1e-3), 'Jy': ('mJy', 1e3), 'erg / (cm2 s)': ('W / m2', 1e-3), 'W / m2': ('erg / (cm2 s)', 1e3), 'erg / s': ('erg / s', 1.0)}
+    eu, efac = SIB[A] if case.get('err_unit') == 'other' else (A, 1.0)
+    if eu != A:
+        rec.cls('error-column-in-other-unit')
+    if case.get('f32'):
+        # a file stored in single precision (format 'E', as the format description says): the reference works from the rounded values
+        base = base.astype(np.float32).astype(float)
+        err = (err * efac).astype(np.float32).astype(float) / efac
+        rec.cls('float32-file')
+    pkgwriter.write_sed_file(d, 'm', wav, base, err * efac, apertures_au=ap, unit=FITS_UNIT[A], err_unit=FITS_UNIT[eu], float32=bool(case.get('f32')),
+                             distance_cm=None if case['dist'] == 'absent' else dist, filename='a.fits')
     fa = os.path.join(d, 'seds', 'a.fits')
+    if case.get('f32'):
+        nu = pkgwriter.nu_of_wav_micron(wav).astype(np.float32).astype(float)      # the frequencies as the single-precision file stores them
     order = np.argsort(nu)               # SED.read(order='nu') returns increasing frequency
     nu_inc = nu[order]
     base_inc = base[:, order]
     err_inc = err[:, order]
-    cfg = (n_ap, case['dist'], n_wav, case['order'], A)
+    cfg = (n_ap, case['dist'], n_wav, case['order'], A, case.get('err_unit'), case.get('f32'))
     rec.state(cfg)
+    T = 3e-6 if case.get('f32') else 1e-11        # single-precision files are converted in single precision
     readC_from_A = {}
     for C in UNITS:
         try:
@@ -120,7 +134,7 @@ def _one_distance(ctx, case, rec, d):
         if 'l' in (fa_, fb_) and fa_ != fb_ and case['dist'] != '1kpc':
             rec.cls('luminosity-with-distance!=1kpc')
         rec.outcome((A, B, round(float(np.log10(expB[0, 0])), 6)))
-        if not (rb.flux.unit == uB and _close(rb.flux.value, expB, 1e-11) and _close(rb.error.value, expBe, 1e-11) and _close(rb.nu.to(u.Hz).value, nu_inc, 1e-12)):
+        if not (rb.flux.unit == uB and _close(rb.flux.value, expB, T) and _close(rb.error.value, expBe, T) and _close(rb.nu.to(u.Hz).value, nu_inc, max(T, 1e-12))):
             rec.violation('convert|%s->%s' % (fa_, fb_), sub, {'got': rb.flux.value[0][:4], 'expected': expB[0][:4], 'nu': nu_inc[:4], 'distance_cm': dist})
             continue
         # A -> B -> A through a real file written by the library
@@ -134,7 +148,7 @@ def _one_distance(ctx, case, rec, d):
         rec.ev()
         rec.trans(2)
         rec.cls('chain-ABA')
-        if not (_close(ra.flux.value, base_inc, 1e-11) and _close(ra.error.value, err_inc, 1e-11)):
+        if not (_close(ra.flux.value, base_inc, T) and _close(ra.error.value, err_inc, T)):
             rec.violation('chain|A->B->A|%s->%s' % (fa_, fb_), sub, {'got': ra.flux.value[0][:4], 'original': base_inc[0][:4]})
             continue
         for C in UNITS:
@@ -146,7 +160,7 @@ def _one_distance(ctx, case, rec, d):
             rec.ev()
             rec.trans()
             rec.cls('chain-ABC')
-            if not _close(rc.flux.value, readC_from_A[C], 1e-11):
+            if not _close(rc.flux.value, readC_from_A[C], T):
                 rec.violation('chain|A->B->C', dict(sub, C=C), {'via_B': rc.flux.value[0][:4], 'direct': readC_from_A[C][0][:4]})
                 break
         rec.trace()
